@@ -216,14 +216,15 @@ func main() {
 			run.Inconclusive("no miner asked the keeper for proofs")
 		}
 		for _, k := range []string{"expected_none_stayed_silent:no-eligible-proof", "expected_none_stayed_silent:better-tip-before-eligible-slot-tryable",
-			"expected_none_stayed_silent:stop-before-eligible-slot-tryable", "expected_none_stayed_silent:height-already-mined-successfully"} {
+			"expected_none_stayed_silent:stop-before-eligible-slot-tryable", "expected_none_stayed_silent:height-already-mined-successfully",
+			"expected_none_stayed_silent:keeper-refused-to-sign-the-header"} {
 			if run.Counter(k) == 0 {
 				run.Inconclusive("no judged scenario of kind " + k)
 			}
 		}
 	}
 	run.Finish("case = one scenario (a real miner against its own scripted chain and keeper): seeded class (plain, better/not-better tip before/after the eligible slot, Stop() before/after it, "+
-		"same height offered again after success/rejection/restart), proof set (valid, unbound, keeper error, unverifiable), target function (eligible at slot offset 0/1/2/4, never, equal-to-best boundary, "+
+		"same height offered again after success/rejection/restart, a keeper that refuses to sign, a side block followed by a chain that outgrew the parent), proof set (valid, unbound, keeper error, unverifiable), target function (eligible at slot offset 0/1/2/4, never, equal-to-best boundary, "+
 		"only the best ever eligible), template time -3..+3 slots from now, heights with and without plot filter; non-trivial = the miner asked the scripted keeper for proofs at least once and no margin "+
 		"of the scenario was too thin to judge; distinct by hash of the seeded parameters", planned/2)
 }
